@@ -1577,6 +1577,11 @@ impl<'i, R: RuleType> ParserState<'i, R> {
     /// ```
     #[inline]
     pub fn stack_peek(self: Box<Self>) -> ParseResult<Box<Self>> {
+        // After the call limit refused a call (possibly the matching `PUSH`), an empty stack
+        // is an artefact of the aborted parse, not a grammar error worth a panic.
+        if self.call_tracker.refused && self.stack.peek().is_none() {
+            return Err(self);
+        }
         let string = self
             .stack
             .peek()
@@ -1610,6 +1615,9 @@ impl<'i, R: RuleType> ParserState<'i, R> {
     /// ```
     #[inline]
     pub fn stack_pop(mut self: Box<Self>) -> ParseResult<Box<Self>> {
+        if self.call_tracker.refused && self.stack.peek().is_none() {
+            return Err(self);
+        }
         let string = self
             .stack
             .pop()
